@@ -147,6 +147,10 @@ def run(tier, seed, replay=None):
         blob = open(d["program_bin"], "rb").read()
         variants.append(Obs(0, "kotlin", d.get("seed", -1), d.get("stage", "replay"), blob))
     else:
+        import glob as globmod
+        for f in sorted(globmod.glob(os.path.join(C.CORPUS, "C11", "*.pkl"))):
+            # programs on which a defect was observed once (kept so that every run re-derives it)
+            variants.append(Obs(len(variants), "kotlin", os.path.basename(f)[:-4], "corpus", open(f, "rb").read()))
         for s in range(nk):
             sd = C.sub_seed(seed, "c11prog", "kotlin", s) % (2 ** 31)
             try:
@@ -206,7 +210,7 @@ def run(tier, seed, replay=None):
     # one history replayed on the MODEL with the translator state threaded through
     hist_file = None
     if variants:
-        hv = variants[:3]        # the three stages of the first program: defined in the first case file
+        hv = variants[:3]        # defined in the first case file
         hseq = [hv[i % len(hv)] for i in (0, 0, 1, 2, 0, 1, 2, 2)]
         hpk = ["src.pkg", "src.pkg", "src.a", "src.a", "", "src.b", "src.b", "src.pkg"]
         trh = K("src.pkg", OPTS)
